@@ -192,12 +192,19 @@ def project(facts, n, scheme, known=None):
         return n
     k = n.get("k")
     if k == "Match" and facts.ty(n["e"]).lstrip("&") == SCHEME_TY:
+        guarded = []          # matching arms that carry an `if` guard, in order: they become an if / else-if chain
         for arm in n["arms"]:
             m = _pat_matches(arm["pat"], scheme)
             if m is None:
                 break
+            if m and arm.get("guard"):
+                guarded.append(arm)
+                continue
             if m and not arm.get("guard"):
                 body = project(facts, arm["body"], scheme, known)
+                for g in reversed(guarded):
+                    body = {"k": "If", "t": n.get("t"), "l": g.get("l", n.get("l")), "c": project(facts, g["guard"], scheme, known),
+                            "th": project(facts, g["body"], scheme, known), "el": body}
                 scrut = project(facts, n["e"], scheme, known)
                 return {"k": "Block", "t": n.get("t"), "l": n.get("l"), "id": n.get("id"),
                         "stmts": [{"k": "Semi", "e": scrut}], "expr": body, "projected": scheme}
